@@ -9,7 +9,7 @@
                       out = [[woc]; 13::bytes]
      18003 ROUNDTRIP  ps = [dbg; rk; tcode; has_prex; model; has_prer]  vs = [13::Fx; 13::SX; 13::Fr; 13::S0]
                       out = [[woc_x; oc; woc_after; acc]; 13::written; 13::dump_after; 15::raw_after]
-     18004 DIST       ps = [tag; payload]                               out = [[woc; oc; tag'; payload']; 13::bytes]
+     18004 DIST       ps = [tag; payload; model]                        out = [[woc; oc; tag'; payload']; 13::bytes]
    F = write_to of the freshly allocated (and filled) object: it fixes the capacities; S0 = an optional first
    stream read into it (so that the current dimensions differ from the capacity); S = the stream under test.
    dbg = 1: overflow checks on; rk = 0 Cursor, 1 a reader that delivers 3 bytes per call (partial read_exact), 2 &[u8];
@@ -289,13 +289,17 @@ Definition run_roundtrip (ps : list Z) (vs : list (list Z)) : option (list (list
   end.
 
 Definition run_dist (ps : list Z) : option (list (list Z)) :=
-  let bs := le_bytes 8 (dist_word (p ps 0) (p ps 1)) in
-  match rd 8 bs with
-  | Some (w, _) => match dist_decode w with
-                   | Some (t, q) => Some [[0; 0; t; q]; 13 :: bs]
-                   | None => Some [[0; 1; 0; 0]; 13 :: bs]
-                   end
-  | None => None
+  match (if b2 (p ps 2) then dist_write_fixed (p ps 0) (p ps 1) else dist_writer (p ps 0) (p ps 1)) with
+  | None => Some [[1; 1; 0; 0]; [13]]                  (* repaired writer: refused, nothing written, nothing to read *)
+  | Some wd =>
+    let bs := le_bytes 8 wd in
+    match rd 8 bs with
+    | Some (w, _) => match dist_decode w with
+                     | Some (t, q) => Some [[0; 0; t; q]; 13 :: bs]
+                     | None => Some [[0; 1; 0; 0]; 13 :: bs]
+                     end
+    | None => None
+    end
   end.
 
 Definition run_c18 (code : Z) (ps : list Z) (vs : list (list Z)) : option (list (list Z)) :=
@@ -457,7 +461,8 @@ Definition oracle_dist (ps : list Z) (outs : list (list Z)) : Z :=
   let st := nth 0 outs [] in
   let t := p ps 0 in
   let q := if dist_is_prob t || dist_is_fixed t then p ps 1 else 0 in
-  obz ((nth 0 st 9 =? 0) && (nth 1 st 9 =? 0) && (nth 2 st 9 =? t) && (nth 3 st 9 =? q)).
+  if nth 0 st 9 =? 1 then obz (dist_is_fixed t && (2 ^ 56 <=? q))     (* a refusal to write is fine exactly for what the word cannot hold *)
+  else obz ((nth 0 st 9 =? 0) && (nth 1 st 9 =? 0) && (nth 2 st 9 =? t) && (nth 3 st 9 =? q)).
 
 (* WRITE of a HAL object through from_data: Ok iff the exact payload fits the buffer, and then the stream parses back *)
 Definition oracle_write (ps : list Z) (vs outs : list (list Z)) : Z :=
